@@ -33,5 +33,8 @@ pub use serde_smile::de::{IoRead, MutSliceRead, SliceRead};
 
 mod de;
 mod ser;
+#[cfg(conjure_rust_verif)]
+#[doc(hidden)]
+pub use crate::smile::ser::ValueBehavior as VerifSerValueBehavior;
 #[cfg(test)]
 mod test;
